@@ -1,6 +1,7 @@
 package main
 
 import (
+	"fmt"
 	"go/token"
 	"go/types"
 
@@ -28,8 +29,9 @@ func (e *Engine) timeModel(st *State, callee *ssa.Function, name, full string, a
 	if recv == nil {
 		switch name {
 		case "Now":
-			key := e.inputKey(st, "time.Now")
-			t := e.declScalar(key, 64)
+			// engine-internal input (the native run reads the real clock): globally unique name
+			e.nowSeq++
+			t := e.declScalar(fmt.Sprintf("time.Now@%d", e.nowSeq), 64)
 			// non-negative and non-decreasing
 			e.addPC(st, b.Sle(b.BV(64, 0), t))
 			if st.lastNow != nil {
